@@ -58,3 +58,45 @@ pub fn str_repeat_small(s: &str, n: usize) -> String {
     }
     unsafe { String::from_utf8_unchecked(v) }
 }
+
+// ---- Vec<T> without the growth path -------------------------------------------------------
+// Every Vec::push / extend_from_slice carries a grow branch (reserve -> finish_grow -> realloc =
+// memcpy of symbolic size) that CBMC must explore at each call site.  Capacity is not
+// semantically observable, so `Vec::new` may start with head-room; the in-place models below
+// then ASSERT the head-room suffices ("outside model" otherwise) instead of growing.
+pub const VEC_ROOM: usize = 48;
+pub fn vec_new_roomy<T>() -> Vec<T> {
+    // built from raw parts so that this model never calls a Vec constructor that is itself stubbed
+    let sz = core::mem::size_of::<T>();
+    assert!(sz > 0, "shim outside model: Vec of a zero-sized type");
+    unsafe {
+        let layout = std::alloc::Layout::from_size_align_unchecked(sz * VEC_ROOM, core::mem::align_of::<T>());
+        let p = std::alloc::alloc(layout) as *mut T;
+        Vec::from_raw_parts(p, 0, VEC_ROOM)
+    }
+}
+pub fn vec_with_capacity_roomy<T>(_n: usize) -> Vec<T> {
+    vec_new_roomy::<T>()
+}
+#[cfg(kani)]
+pub fn vec_push_nogrow<T, A: std::alloc::Allocator>(v: &mut Vec<T, A>, x: T) {
+    assert!(v.len() < v.capacity(), "shim outside model: Vec::push beyond the head-room");
+    unsafe {
+        let n = v.len();
+        core::ptr::write(v.as_mut_ptr().add(n), x);
+        v.set_len(n + 1);
+    }
+}
+#[cfg(kani)]
+pub fn vec_extend_from_slice_nogrow<T: Clone, A: std::alloc::Allocator>(v: &mut Vec<T, A>, s: &[T]) {
+    assert!(v.capacity() - v.len() >= s.len(), "shim outside model: Vec::extend_from_slice beyond the head-room");
+    let mut i = 0;
+    while i < s.len() {
+        unsafe {
+            let n = v.len();
+            core::ptr::write(v.as_mut_ptr().add(n), s[i].clone());
+            v.set_len(n + 1);
+        }
+        i += 1;
+    }
+}
